@@ -1,18 +1,591 @@
-// C19: simulated book file layer and book oracles (placeholder, filled in later)
+// C19: simulated file layer for the Polyglot book (read(2) interposed, real
+// file underneath) and the book oracles.
+#include <fcntl.h>
+#include <sys/stat.h>
+#include <sys/syscall.h>
+#include <unistd.h>
+
+#include <algorithm>
+#include <cerrno>
+#include <cmath>
+#include <cstdio>
+#include <cstring>
+#include <map>
+#include <set>
+#include <sstream>
+#include <tuple>
+
+#include "polyglot.h"
+#include "position.h"
+#include "uci.h"
+
 #include "simint.h"
+#include "workload.h"
+
 namespace sim
 {
+// ------------------------------------------------------- file fault plan --
+enum BookFault { BF_NONE = 0, BF_SHORT = 1, BF_EINTR = 2, BF_EIO = 3, BF_ENOENT = 4 };
+
+struct FilePlan
+{
+    bool active = false;
+    dev_t dev = 0;
+    ino_t ino = 0;
+    int kind = BF_NONE;
+    int64_t arg = 0;
+    int64_t calls = 0;
+    int64_t fired = 0;
+};
+static FilePlan g_plan;
+
+struct BookRec
+{
+    uint64_t key;
+    uint16_t move;
+    uint16_t weight;
+};
+
+struct BookState
+{
+    std::string path;
+    std::vector<BookRec> complete;      // complete records of the file image
+    std::vector<BookRec> before_error;  // complete records delivered before an injected EIO (== complete otherwise)
+    int fault = BF_NONE;
+    bool policy_best = false;
+    bool loaded = false;
+    int files = 0;
+};
+
+static std::string g_book_dir;
+
+static BookState& book_of(World* w)
+{
+    if (!w->book) w->book = new BookState();
+    return *static_cast<BookState*>(w->book);
+}
+
+void book_teardown(World* w)
+{
+    if (!w->book) return;
+    BookState* b = static_cast<BookState*>(w->book);
+    if (!b->path.empty()) unlink(b->path.c_str());
+    delete b;
+    w->book = nullptr;
+    g_plan.active = false;
+}
+
+}  // namespace sim
+
+// libstdc++'s basic_filebuf reads through read(2); the executable's definition wins over libc's
+extern "C" ssize_t read(int fd, void* buf, size_t n)
+{
+    using namespace sim;
+    if (g_plan.active && fd > 2)
+    {
+        struct stat st;
+        if (fstat(fd, &st) == 0 && st.st_dev == g_plan.dev && st.st_ino == g_plan.ino)
+        {
+            g_plan.calls++;
+            off_t off = lseek(fd, 0, SEEK_CUR);
+            switch (g_plan.kind)
+            {
+            case BF_SHORT:
+                if (g_plan.arg > 0 && n > size_t(g_plan.arg)) { n = size_t(g_plan.arg); g_plan.fired++; }
+                break;
+            case BF_EINTR:
+                if (g_plan.arg > 0 && (g_plan.calls % g_plan.arg) == 0)
+                {
+                    g_plan.fired++;
+                    errno = EINTR;
+                    return -1;
+                }
+                break;
+            case BF_EIO:
+                if (off >= 0)
+                {
+                    if (off >= g_plan.arg)
+                    {
+                        g_plan.fired++;
+                        errno = EIO;
+                        return -1;
+                    }
+                    if (off + off_t(n) > g_plan.arg) n = size_t(g_plan.arg - off);  // deliver up to the bad sector, fail on the next call
+                }
+                break;
+            default: break;
+            }
+        }
+    }
+    return syscall(SYS_read, fd, buf, n);
+}
+
+namespace sim
+{
+using namespace engine;
+
+// ----------------------------------------------------------- encodings ----
+static uint16_t encode_polyglot_move(const ref::Board& b, const ref::RMove& m, bool castle_as_king_takes_rook)
+{
+    int from = m.from, to = m.to;
+    if (ref::kind_of(b.sq[m.from]) == ref::KIND_K && std::abs(ref::file_of(m.to) - ref::file_of(m.from)) == 2 && castle_as_king_takes_rook)
+        to = ref::sq_of(ref::file_of(m.to) == 6 ? 7 : 0, ref::rank_of(m.from));
+    int promo = m.promo ? m.promo - 1 : 0;  // KIND_N(2)->1 ... KIND_Q(5)->4
+    return uint16_t(promo << 12 | ref::rank_of(from) << 9 | ref::file_of(from) << 6 | ref::rank_of(to) << 3 | ref::file_of(to));
+}
+
+// what the record means as a move of position b (UCI text)
+static std::string decode_polyglot_move(const ref::Board& b, uint16_t code)
+{
+    int tf = code & 7, tr = (code >> 3) & 7, ff = (code >> 6) & 7, fr = (code >> 9) & 7, promo = (code >> 12) & 7;
+    int from = ref::sq_of(ff, fr), to = ref::sq_of(tf, tr);
+    int8_t p = b.sq[from];
+    if (ref::kind_of(p) == ref::KIND_K)
+    {
+        if (from == 4 && p == ref::WK && (to == 7 || to == 6)) return "e1g1";
+        if (from == 4 && p == ref::WK && (to == 0 || to == 2)) return "e1c1";
+        if (from == 60 && p == ref::BK && (to == 63 || to == 62)) return "e8g8";
+        if (from == 60 && p == ref::BK && (to == 56 || to == 58)) return "e8c8";
+    }
+    ref::RMove m;
+    m.from = int8_t(from);
+    m.to = int8_t(to);
+    m.promo = int8_t(promo ? promo + 1 : 0);
+    return m.uci();
+}
+
+static std::string hex_of(const std::string& bytes)
+{
+    static const char* d = "0123456789abcdef";
+    std::string o;
+    for (unsigned char c : bytes) { o += d[c >> 4]; o += d[c & 15]; }
+    return o;
+}
+static std::string unhex(const std::string& h)
+{
+    std::string o;
+    auto v = [](char c) { return c <= '9' ? c - '0' : c - 'a' + 10; };
+    for (size_t i = 0; i + 1 < h.size(); i += 2) o += char(v(h[i]) << 4 | v(h[i + 1]));
+    return o;
+}
+
+static std::vector<BookRec> parse_image(const std::string& img, size_t upto)
+{
+    std::vector<BookRec> out;
+    for (size_t off = 0; off + 16 <= img.size() && off + 16 <= upto; off += 16)
+    {
+        BookRec r;
+        r.key = 0;
+        for (int i = 0; i < 8; ++i) r.key = r.key << 8 | uint8_t(img[off + size_t(i)]);
+        r.move = uint16_t(uint8_t(img[off + 8]) << 8 | uint8_t(img[off + 9]));
+        r.weight = uint16_t(uint8_t(img[off + 10]) << 8 | uint8_t(img[off + 11]));
+        out.push_back(r);
+    }
+    return out;
+}
+
+// --------------------------------------------------------- driver ops -----
+// bookfile <fault kind> <fault arg> <truncate at byte or -1> <record spec>;<record spec>;...
+//   record spec: F|<fen>|<move code>|<weight>   key = Polyglot key of the position (engine's hash function, C18 is not decided here)
+//                K|<hex key>|<move code>|<weight>
 void run_book_op(World* w, const std::string& name, const std::string& args)
 {
-    (void)args;
-    w->infra("book op not implemented: " + name);
+    BookState& bs = book_of(w);
+    if (g_book_dir.empty())
+    {
+        const char* d = getenv("VERIF_DIR");
+        g_book_dir = std::string(d ? d : "/verif") + "/build/run/books";
+        mkdir((std::string(d ? d : "/verif") + "/build").c_str(), 0755);
+        mkdir((std::string(d ? d : "/verif") + "/build/run").c_str(), 0755);
+        mkdir(g_book_dir.c_str(), 0755);
+    }
+    if (name == "bookfile")
+    {
+        std::istringstream is(args);
+        int kind = 0;
+        int64_t arg = 0, trunc = -1;
+        is >> kind >> arg >> trunc;
+        std::string rest;
+        std::getline(is, rest);
+        if (!rest.empty() && rest[0] == ' ') rest.erase(0, 1);
+        std::string img;
+        size_t a = 0;
+        while (a < rest.size())
+        {
+            size_t e = rest.find(';', a);
+            if (e == std::string::npos) e = rest.size();
+            std::string spec = rest.substr(a, e - a);
+            a = e + 1;
+            if (spec.empty()) continue;
+            std::vector<std::string> f;
+            size_t p = 0;
+            for (;;)
+            {
+                size_t q = spec.find('|', p);
+                if (q == std::string::npos) { f.push_back(spec.substr(p)); break; }
+                f.push_back(spec.substr(p, q - p));
+                p = q + 1;
+            }
+            if (f.size() < 4) continue;
+            uint64_t key = 0;
+            if (f[0] == "F")
+            {
+                Position pos(f[1]);
+                key = PolyglotBook::hash(pos);
+            }
+            else key = strtoull(f[1].c_str(), nullptr, 16);
+            unsigned mv = unsigned(atoi(f[2].c_str())), wt = unsigned(atoi(f[3].c_str()));
+            for (int i = 7; i >= 0; --i) img += char((key >> (8 * i)) & 0xFF);
+            img += char(mv >> 8);
+            img += char(mv & 0xFF);
+            img += char(wt >> 8);
+            img += char(wt & 0xFF);
+            img += std::string("\0\0\0\0", 4);
+        }
+        if (trunc >= 0 && size_t(trunc) < img.size()) img.resize(size_t(trunc));
+        if (!bs.path.empty()) unlink(bs.path.c_str());
+        bs.path = g_book_dir + "/book_" + std::to_string(getpid()) + "_" + std::to_string(++bs.files) + ".bin";
+        bs.fault = kind;
+        bs.loaded = false;
+        g_plan = FilePlan();
+        if (kind == BF_ENOENT)
+        {
+            unlink(bs.path.c_str());
+            bs.complete.clear();
+            bs.before_error.clear();
+            w->counters["fault_file_enoent"]++;
+        }
+        else
+        {
+            FILE* fp = fopen(bs.path.c_str(), "wb");
+            if (!fp) { w->infra("cannot create book file " + bs.path); return; }
+            if (!img.empty()) fwrite(img.data(), 1, img.size(), fp);
+            fclose(fp);
+            struct stat st;
+            stat(bs.path.c_str(), &st);
+            bs.complete = parse_image(img, img.size());
+            bs.before_error = bs.complete;
+            if (kind == BF_EIO) bs.before_error = parse_image(img, size_t(std::max<int64_t>(0, arg)));
+            g_plan.active = kind != BF_NONE;
+            g_plan.dev = st.st_dev;
+            g_plan.ino = st.st_ino;
+            g_plan.kind = kind;
+            g_plan.arg = arg;
+            if (img.size() % 16 != 0) w->counters["probe_record_straddles_eof"]++;
+            if (img.empty()) w->counters["probe_empty_book_file"]++;
+        }
+        w->counters["book_files"]++;
+        return;
+    }
+    if (name == "c19load")
+    {
+        // what the engine holds vs what the file says
+        w->counters["c19_load_checks"]++;
+        if (g_plan.fired > 0)
+        {
+            const char* nm = bs.fault == BF_SHORT ? "fault_file_short_read" : bs.fault == BF_EINTR ? "fault_file_eintr" : "fault_file_eio";
+            w->counters[nm] += g_plan.fired;
+        }
+        std::multiset<std::tuple<uint64_t, uint32_t, int>> loaded, expect, upper;
+        for (auto& kv : w->uci->polyglot._hashmap)
+            for (auto& wm : kv.second) loaded.insert({kv.first, wm.first, wm.second});
+        auto conv = [](const BookRec& r) {
+            int tf = r.move & 7, tr = (r.move >> 3) & 7, ff = (r.move >> 6) & 7, fr = (r.move >> 9) & 7, promo = (r.move >> 12) & 7;
+            uint32_t from = uint32_t(fr * 8 + ff), to = uint32_t(tr * 8 + tf);
+            uint32_t pk = promo ? uint32_t(promo + 1) : 0;  // engine: KNIGHT = 2 ... QUEEN = 5
+            uint32_t mv = pk << 12 | to << 6 | from;
+            return std::make_tuple(r.key, mv, int(r.weight));
+        };
+        for (auto& r : bs.complete) upper.insert(conv(r));
+        for (auto& r : bs.before_error) expect.insert(conv(r));
+        bs.loaded = true;
+        std::string what = "file of " + std::to_string(bs.complete.size()) + " complete records (fault kind " + std::to_string(bs.fault) + ")";
+        if (bs.fault == BF_EIO)
+        {
+            // deliberate, narrow relaxation: after an I/O error the book may be partial or empty, never invented
+            for (auto& x : loaded)
+                if (expect.count(x) < loaded.count(x))
+                {
+                    w->violation("C19", "book-holds-record-not-in-file-after-eio", what + ": loaded " + std::to_string(loaded.size()) + " records, one of them not among the " +
+                                                                                         std::to_string(expect.size()) + " delivered before the error");
+                    break;
+                }
+            return;
+        }
+        if (loaded != expect)
+        {
+            std::string cls = "book-differs-from-file";
+            if (loaded.size() > expect.size())
+            {
+                cls = expect.empty() ? "book-invents-record-for-empty-file" : "book-duplicates-or-invents-record";
+            }
+            else if (loaded.size() < expect.size()) cls = "book-drops-record";
+            w->violation("C19", cls, what + ": engine holds " + std::to_string(loaded.size()) + " records");
+        }
+        return;
+    }
+    if (name == "c19policy")
+    {
+        bs.policy_best = args == "best";
+        return;
+    }
+    if (name == "c19sample")
+    {
+        // c19sample <n> <seed or -1 for the clock-seeded constructor> <fen>
+        std::istringstream is(args);
+        int64_t n = 0, seed = 0;
+        is >> n >> seed;
+        std::string fen;
+        std::getline(is, fen);
+        if (!fen.empty() && fen[0] == ' ') fen.erase(0, 1);
+        if (bs.fault == BF_EIO || bs.fault == BF_ENOENT) return;
+        Position pos(fen);
+        ref::Board mb(fen);
+        uint64_t key = PolyglotBook::hash(pos);
+        std::map<std::string, int64_t> weight_of;  // by decoded move
+        int64_t sum = 0, maxw = -1;
+        for (auto& r : bs.complete)
+            if (r.key == key)
+            {
+                weight_of[decode_polyglot_move(mb, r.move)] += r.weight;
+                sum += r.weight;
+                maxw = std::max<int64_t>(maxw, r.weight);
+            }
+        if (weight_of.empty()) return;
+        FilePlan saved = g_plan;
+        g_plan.active = false;  // distribution runs read the file without faults
+        PolyglotBook book = seed < 0 ? PolyglotBook(bs.path) : PolyglotBook(bs.path, size_t(seed));
+        g_plan = saved;
+        if (!book.contains(key))
+        {
+            w->violation("C19", "book-drops-record", "key of " + fen + " is in the file but not in the loaded book");
+            return;
+        }
+        // best policy
+        {
+            std::string got = pos.uci(book.get_best_move(key, pos));
+            bool ok = false;
+            for (auto& r : bs.complete)
+                if (r.key == key && r.weight == maxw && decode_polyglot_move(mb, r.move) == got) ok = true;
+            w->counters["c19_best_checks"]++;
+            if (!ok) w->violation("C19", "best-policy-not-maximal-weight", fen + ": get_best_move gave " + got);
+        }
+        if (sum <= 0) return;  // all weights zero: sampling undefined by the format
+        std::map<std::string, int64_t> obs;
+        for (int64_t i = 0; i < n; ++i) obs[pos.uci(book.get_random_move(key, pos))]++;
+        w->counters["c19_sample_draws"] += n;
+        w->counters["c19_sample_checks"]++;
+        std::string dist;
+        for (auto& kv : weight_of) dist += kv.first + ":" + std::to_string(kv.second) + "->" + std::to_string(obs.count(kv.first) ? obs[kv.first] : 0) + " ";
+        for (auto& kv : obs)
+        {
+            auto it = weight_of.find(kv.first);
+            if (it == weight_of.end())
+            {
+                w->violation("C19", "random-policy-move-not-recorded", fen + ": sampled " + kv.first + " which no record for this key encodes; " + dist);
+                return;
+            }
+            if (it->second == 0)
+            {
+                w->counters["c19_zero_weight_sampled"]++;
+                w->violation("C19", "random-policy-plays-zero-weight-move", fen + ": " + kv.first + " has weight 0 but was sampled " + std::to_string(kv.second) + "/" + std::to_string(n) + "; " + dist);
+                return;
+            }
+        }
+        // proportions: chi-square against w/sum at p ~ 1e-9 (Wilson-Hilferty bound, conservative for few cells), and 6.5 sigma per cell
+        double chi = 0;
+        int cells = 0;
+        bool sigma_bad = false;
+        for (auto& kv : weight_of)
+        {
+            if (kv.second == 0) continue;
+            double p = double(kv.second) / double(sum);
+            double e = p * double(n);
+            double o = double(obs.count(kv.first) ? obs[kv.first] : 0);
+            chi += (o - e) * (o - e) / e;
+            cells++;
+            double sd = std::sqrt(double(n) * p * (1 - p));
+            if (sd > 0 && std::fabs(o - e) > 6.5 * sd + 1) sigma_bad = true;
+            if (kv.second > 0 && kv.second * 20 < sum) w->counters["probe_rare_move_cells"]++;
+        }
+        int dof = std::max(1, cells - 1);
+        double z = 6.3;
+        double t = 1.0 - 2.0 / (9.0 * dof) + z * std::sqrt(2.0 / (9.0 * dof));
+        double crit = dof * t * t * t + 5.0;
+        if (cells >= 2 && (chi > crit || sigma_bad))
+        {
+            char buf[96];
+            snprintf(buf, sizeof buf, "chi2=%.1f crit=%.1f dof=%d n=%ld", chi, crit, dof, (long)n);
+            w->violation("C19", "random-policy-not-proportional-to-weight", fen + ": " + dist + buf);
+        }
+        if (cells >= 2) w->counters["c19_multi_move_distributions"]++;
+        return;
+    }
+    w->infra("unknown book op " + name);
 }
+
+std::string book_substitute(World* w, const std::string& line)
+{
+    std::string l = line;
+    size_t p = l.find("@BOOK@");
+    if (p != std::string::npos)
+    {
+        BookState& bs = book_of(w);
+        l.replace(p, 6, bs.path.empty() ? "/nonexistent/book.bin" : bs.path);
+    }
+    return l;
+}
+
+// the go path: bestmove taken from the book
+void book_check_bestmove(World* w, GoRec& g)
+{
+    if (!w->book) return;
+    BookState& bs = book_of(w);
+    if (!bs.loaded || bs.fault == BF_EIO) return;
+    Position pos(g.root.fen());
+    uint64_t key = PolyglotBook::hash(pos);
+    int64_t maxw = -1, sum = 0;
+    bool any = false;
+    for (auto& r : bs.complete)
+        if (r.key == key) { any = true; maxw = std::max<int64_t>(maxw, r.weight); sum += r.weight; }
+    if (!any) return;
+    w->counters["c19_go_book_hits"]++;
+    if (!g.infos.empty()) w->violation("C19", "book-move-not-played", "'" + g.line + "' in " + g.root.fen() + ": key is in the book but the engine searched");
+    bool recorded = false, ok = false;
+    ref::Board mb = g.root;
+    for (auto& r : bs.complete)
+        if (r.key == key && decode_polyglot_move(mb, r.move) == g.bestmove)
+        {
+            recorded = true;
+            if (bs.policy_best ? r.weight == maxw : (sum == 0 || r.weight > 0)) ok = true;
+        }
+    if (!recorded)
+        w->violation("C19", "book-bestmove-not-recorded", "'" + g.line + "' in " + g.root.fen() + " answered " + g.bestmove + ", not a (correctly decoded) record of this key");
+    else if (!ok)
+        w->violation("C19", bs.policy_best ? "best-policy-not-maximal-weight" : "random-policy-plays-zero-weight-move",
+                     "'" + g.line + "' in " + g.root.fen() + " answered " + g.bestmove);
+}
+
+// ------------------------------------------------------------ generator ---
 Script gen_book_script(uint64_t run_seed, const std::string& tier, Rng& r)
 {
-    (void)tier; (void)r;
+    (void)tier;
     Script s;
-    s.cfg.prop = "C19";
     s.cfg.run_seed = run_seed;
+    s.cfg.prop = "C19";
+    s.cfg.node_cost_ns = r.logrange(200, 200000);
+    s.cfg.policy = int(r.below(POL_COUNT));
+    s.cfg.node_cap = 20000;
+    s.cfg.epoch_offset_us = int64_t(r.below(2000000000));
+    auto op = [](int kind, const std::string& line) { Op o; o.kind = kind; o.line = line; return o; };
+
+    int books = int(r.range(1, 2));
+    for (int bi = 0; bi < books; ++bi)
+    {
+        // positions the session will visit
+        std::vector<PosSpec> ps;
+        int np = int(r.range(1, 4));
+        for (int i = 0; i < np; ++i)
+        {
+            if (r.chance(0.35))
+            {
+                // castling / promotion rich positions
+                static const char* sp[] = {"r3k2r/pppq1ppp/2npbn2/2b1p3/2B1P3/2NPBN2/PPPQ1PPP/R3K2R w KQkq - 0 10", "r3k2r/pppq1ppp/2npbn2/2b1p3/2B1P3/2NPBN2/PPPQ1PPP/R3K2R b KQkq - 0 10",
+                                           "4k3/1P6/8/8/8/8/6p1/4K2R b K - 0 1", "8/P1k5/8/8/8/8/5Kp1/8 w - - 0 1", "r3k2r/8/8/8/8/8/8/R3K2R w KQkq - 0 1", "r3k2r/8/8/8/8/8/8/R3K2R b KQkq - 0 1"};
+                PosSpec p;
+                p.start_fen = sp[r.below(6)];
+                p.game = ref::Game(ref::Board(p.start_fen));
+                ps.push_back(p);
+            }
+            else ps.push_back(gen_position(r, 30, 0));
+        }
+        // records
+        std::string spec;
+        int nrec = 0;
+        bool empty_file = r.chance(0.1);
+        if (!empty_file)
+        {
+            for (auto& p : ps)
+            {
+                if (r.chance(0.15)) continue;  // position not in the book
+                ref::Board b = p.game.cur;
+                auto ms = b.legal();
+                if (ms.empty()) continue;
+                // prefer special moves
+                std::vector<ref::RMove> pick;
+                for (auto& m : ms)
+                    if (m.promo || (ref::kind_of(b.sq[m.from]) == ref::KIND_K && std::abs(ref::file_of(m.to) - ref::file_of(m.from)) == 2))
+                        if (r.chance(0.7)) pick.push_back(m);
+                int k = int(r.range(1, 5));
+                while (int(pick.size()) < k) pick.push_back(ms[r.below(ms.size())]);
+                if (int(pick.size()) > 6) pick.resize(6);
+                // weight pattern
+                uint64_t pat = r.below(7);
+                for (size_t i = 0; i < pick.size(); ++i)
+                {
+                    int wgt;
+                    switch (pat)
+                    {
+                    case 0: wgt = i == 0 ? 0 : int(r.range(1, 9)); break;          // zero-weight first entry
+                    case 1: wgt = 1; break;                                          // equal small weights
+                    case 2: wgt = int(r.range(1, 3)); break;
+                    case 3: wgt = i + 1 == pick.size() ? 0 : int(r.range(1, 9)); break;  // zero-weight last entry
+                    case 4: wgt = i == 0 ? 60000 : 1; break;                        // one dominant
+                    case 5: wgt = int(r.logrange(1, 65535)); break;
+                    default: wgt = r.chance(0.3) ? 0 : int(r.range(1, 100)); break;
+                    }
+                    uint16_t code = encode_polyglot_move(b, pick[i], r.chance(0.7));
+                    spec += "F|" + b.fen() + "|" + std::to_string(code) + "|" + std::to_string(wgt) + ";";
+                    nrec++;
+                }
+            }
+            int pad = int(r.range(0, 6));
+            for (int i = 0; i < pad; ++i)
+            {
+                char buf[64];
+                snprintf(buf, sizeof buf, "K|%016lx|%d|%d;", (unsigned long)r.next(), int(r.below(4096)), int(r.below(100)));
+                spec += buf;
+                nrec++;
+            }
+        }
+        // fault plan
+        int kind = BF_NONE;
+        int64_t arg = 0, trunc = -1;
+        uint64_t fk = r.below(100);
+        int64_t size = int64_t(nrec) * 16;
+        if (fk < 30) kind = BF_NONE;
+        else if (fk < 50) { kind = BF_NONE; if (size > 0) trunc = std::max<int64_t>(0, size - int64_t(r.range(1, std::min<int64_t>(31, size)))); }
+        else if (fk < 65) { kind = BF_SHORT; arg = r.range(1, 15); }
+        else if (fk < 75) { kind = BF_EINTR; arg = r.range(2, 3); }
+        else if (fk < 88) { kind = BF_EIO; arg = size > 0 ? int64_t(r.below(uint64_t(size) + 1)) : 0; }
+        else kind = BF_ENOENT;
+        if (r.chance(0.3) && kind == BF_SHORT && size > 0) trunc = std::max<int64_t>(0, size - int64_t(r.range(1, std::min<int64_t>(31, size))));
+        s.ops.push_back(op(OP_AWAIT_IDLE, ""));
+        s.ops.push_back(op(OP_CHECK, "bookfile " + std::to_string(kind) + " " + std::to_string(arg) + " " + std::to_string(trunc) + " " + spec));
+        s.ops.push_back(op(OP_SEND, "setoption name Polyglot Book value @BOOK@"));
+        s.ops.push_back(op(OP_AWAIT_IDLE, ""));
+        s.ops.push_back(op(OP_CHECK, "c19load"));
+        bool best = r.chance(0.5);
+        s.ops.push_back(op(OP_SEND, std::string("setoption name Polyglot Sample value ") + (best ? "best" : "random")));
+        s.ops.push_back(op(OP_CHECK, std::string("c19policy ") + (best ? "best" : "random")));
+        for (auto& p : ps)
+        {
+            s.ops.push_back(op(OP_SEND, p.command()));
+            int gos = int(r.range(1, 3));
+            for (int i = 0; i < gos; ++i)
+            {
+                s.ops.push_back(op(OP_SEND, "go depth " + std::to_string(r.range(1, 3))));
+                s.ops.push_back(op(OP_AWAIT_BEST, ""));
+            }
+            if (r.chance(0.7))
+            {
+                s.ops.push_back(op(OP_AWAIT_IDLE, ""));
+                int64_t seed = r.chance(0.3) ? -1 : int64_t(r.next() >> 2);
+                s.ops.push_back(op(OP_CHECK, "c19sample 20000 " + std::to_string(seed) + " " + p.game.cur.fen()));
+            }
+        }
+    }
     return s;
 }
+
 }  // namespace sim
